@@ -39,15 +39,17 @@ Definition ctor (cls depth : Z) (exact : bool) : option Z :=
 Definition elab_ok (cls d : Z) : bool := if cls =? 0 then async_elab_ok d else async_buf_elab_ok d.
 
 (* cls 0 = AsyncFIFO, 1 = AsyncFIFOBuffered.
-   [0] = constructor raised ValueError; [2; depth'] = elaboration raises; [1; depth'; obs...] *)
+   [0] = constructor raised ValueError; [2; depth'] = elaboration raises; [1; depth'; obs...; verdict] where
+   verdict is the answer of the interface monitor (overflow / wrong r_data / level out of range): 0 by the theorems
+   of Props/C13.v *)
 Definition k_trace (cls depth width : Z) (exact : bool) (xs : list Z) : list Z :=
   match ctor cls depth exact with
   | None => [0]
   | Some d =>
       if negb (elab_ok cls d) then [2; d]
-      else if d =? 0 then 1 :: 0 :: map (fun _ => 0) xs
-      else if cls =? 0 then let n := aceil_log2 d in 1 :: d :: a_trace n width (astate0 n) xs
-      else let n := aceil_log2 (d - 1) in 1 :: d :: b_trace n width (bstate0 n) xs
+      else if d =? 0 then 1 :: 0 :: map (fun _ => 0) xs ++ [0]
+      else if cls =? 0 then let n := aceil_log2 d in 1 :: d :: a_trace n width (astate0 n) xs ++ [0]
+      else let n := aceil_log2 (d - 1) in 1 :: d :: b_trace n width (bstate0 n) xs ++ [0]
   end.
 
 (* SPECIFICATION answer for "construct, then elaborate": every constructible depth elaborates *)
